@@ -386,3 +386,38 @@ Section General.
       exists domain. cbn [duty_object_root duty_domain]. split; [rewrite Hdt; exact Hd|]. rewrite <- exp_not_failing by exact Hf. reflexivity.
   Qed.
 End General.
+
+(* ------------------------------------------------------------------------------------------ *)
+(* Sessions on one service instance.                                                            *)
+
+Section SessionFacts.
+  Variable H : N -> N -> N.
+  Variable sig : Type.
+  Variable zero_sig : sig.
+  Variable E : env sig.
+
+  Lemma run_session_map Sv qs :
+    run_session H sig zero_sig E Sv qs = map (fun pq => run H sig zero_sig (fst pq) E Sv (snd pq)) qs.
+  Proof. induction qs as [|pq r IH]; cbn [run_session handle map]; [reflexivity | rewrite IH; reflexivity]. Qed.
+
+  Lemma run_session_nth Sv qs k P q :
+    nth_error qs k = Some (P, q) ->
+    nth_error (run_session H sig zero_sig E Sv qs) k = Some (run H sig zero_sig P E Sv q).
+  Proof. intro Hk. rewrite run_session_map, nth_error_map, Hk. reflexivity. Qed.
+
+  Lemma run_session_nth_inv Sv qs k out :
+    nth_error (run_session H sig zero_sig E Sv qs) k = Some out ->
+    exists P q, nth_error qs k = Some (P, q) /\ out = run H sig zero_sig P E Sv q.
+  Proof.
+    rewrite run_session_map, nth_error_map. destruct (nth_error qs k) as [[P q]|] eqn:Hk; cbn; [|discriminate].
+    intro Ho. injection Ho as <-. exists P, q. split; reflexivity.
+  Qed.
+
+  Lemma run_session_length Sv qs : length (run_session H sig zero_sig E Sv qs) = length qs.
+  Proof. rewrite run_session_map. apply map_length. Qed.
+
+  Lemma run_session_app Sv qs1 qs2 :
+    run_session H sig zero_sig E Sv (qs1 ++ qs2)
+    = run_session H sig zero_sig E Sv qs1 ++ run_session H sig zero_sig E Sv qs2.
+  Proof. rewrite !run_session_map. apply map_app. Qed.
+End SessionFacts.
